@@ -468,6 +468,16 @@ op_getdrv(int driver_id)
         id.driver_id = (uint8_t)driver_id;
         d = device_manager_get_driver(&g_dm, &id);
     }
+    // through the loader's forwarding wrapper, an open that the driver refuses — possibly after it had already stored a device in *out
+    // and released it again (the mock driver does that for ids beyond its table) — is an error for the caller and nothing else: in
+    // particular no close is issued for a device that was never opened successfully (the mock would free it twice: ASan).  Done before
+    // the result line is written, so that a crash here is the result.
+    if (d && driver_id >= 0) {
+        Device* dev = 0;
+        int st = (int)d->open(d, 1000 + (uint64_t)driver_id, &dev);
+        if (st == Device_Ok)
+            emit('O', "open-of-an-out-of-range-device-id-succeeded " + std::to_string(driver_id));
+    }
     emit('A', d ? "present" : "null");
 }
 
